@@ -1,6 +1,7 @@
 import SamplyModel.Model.ConvSpec
 import SamplyModel.Lemmas.DepthIter
 import SamplyModel.Lemmas.ConvJit
+import SamplyModel.Lemmas.ConvElide
 /-!
 # C14 — deep stacks are shortened only in the middle, with an exact elision count
 
@@ -366,3 +367,110 @@ theorem C14_percpu_below_threshold (L : List Frame) (n : Nat) (hn : n < 500) (hc
 /-- non-vacuity: the boundary case itself (thread label + 499 frames, hint 499) -/
 example : let L := Frame.tlabel "t" :: (List.range 499).map Frame.raw
     callDepth L = 499 ∧ L.length = 500 ∧ elisionOk L (depthLimit 200 L 499) = true := by decide +kernel
+
+/-! ## The observable statement: at `flushBuffer` level and over histories
+
+The theorems above are about the limiter applied to an arbitrary frame list. What reaches the profile is
+`flushBuffer`'s output: for a sample whose frames are not JS-classified the inner iterator yields exactly the
+attributed frames, root first, as many as were recorded — the hint is exact — and none of them is a placeholder,
+so the full judged statement `elisionOk` holds of the emitted stack against the attributed stack. -/
+
+/-- No placeholder among the frames `convert_stack` yields (regular, raw, JS label and thread label frames only):
+the hypothesis `hne` of the theorems above holds of every inner iterator the limiter is run on. -/
+theorem C14_no_placeholder (extra : Option Frame) (maps pm : List MapAdd) (stack : List SFrame)
+    (he : ∀ f ∈ extra.toList, isElided f = false) :
+    ∀ f ∈ convertStackX extra maps pm stack, isElided f = false :=
+  convertStackX_frames extra maps pm stack he
+
+/-- exact hint, no placeholder, no thread label: the full judged statement, for every depth -/
+theorem C14_meets_spec_exact (L : List Frame) (hne : ∀ f ∈ L, isElided f = false)
+    (hnt : ∀ f ∈ L, isTLabel f = false) : elisionOk L (depthLimit 200 L L.length) = true := by
+  by_cases h : L.length < 500
+  · have := C14_iterator_meets_spec_unchanged L h
+    rwa [C14_iterator_refines] at this
+  · exact C14_meets_spec_elided L hne (by rw [callDepth_eq_length L hnt]; omega)
+
+/-- **The flush meets the judged statement.** For every buffer with a queue sorted by timestamp and samples in
+nondecreasing raw time (true of converter runs: `C02_run_sorted`) and every perf-map level: the output of
+`flushBuffer` is, sample by sample, the depth limiter applied to the converted stack with the *recorded length* as
+hint; and for every sample none of whose frames is JS-classified, the converted stack is the attributed frame
+list root first (`orig`, as many frames as recorded), and the emitted stack satisfies `elisionOk orig`. -/
+theorem C14_flush_meets_spec (pm : List MapAdd) (q : List (Nat × MapAdd)) (us : List USample) (hq : SortedQ q)
+    (hu : us.Pairwise (fun a b => a.tmono ≤ b.tmono)) :
+    flushBuffer pm [] q us = us.map (fun u => flushOne pm (tableFrom [] q u.tmono) u) ∧
+    ∀ u ∈ us, (∀ f ∈ u.stack, (secondPass (tableFrom [] q u.tmono) pm f).js = none) →
+      (flushOne pm (tableFrom [] q u.tmono) u).2.frames =
+          depthLimit 200 ((u.stack.map (fun f => (secondPass (tableFrom [] q u.tmono) pm f).frame)).reverse)
+            u.stack.length ∧
+        ((u.stack.map (fun f => (secondPass (tableFrom [] q u.tmono) pm f).frame)).reverse).length = u.stack.length ∧
+        elisionOk ((u.stack.map (fun f => (secondPass (tableFrom [] q u.tmono) pm f).frame)).reverse)
+          (flushOne pm (tableFrom [] q u.tmono) u).2.frames = true := by
+  refine ⟨flushBuffer_spec pm [] q us hq hu, ?_⟩
+  intro u _ hjs
+  have hconv : convertStack (tableFrom [] q u.tmono) pm u.stack =
+      (u.stack.map (fun f => (secondPass (tableFrom [] q u.tmono) pm f).frame)).reverse := by
+    unfold convertStack convertStackX
+    simp only [Option.toList_none, List.nil_append]
+    rw [emitJs_no_js]
+    · simp [List.map_reverse]
+    · intro i hi
+      simp only [List.mem_map, List.mem_reverse] at hi
+      obtain ⟨f, hf, rfl⟩ := hi
+      exact hjs f hf
+  have hlen : ((u.stack.map (fun f => (secondPass (tableFrom [] q u.tmono) pm f).frame)).reverse).length =
+      u.stack.length := by simp
+  have hfr : (flushOne pm (tableFrom [] q u.tmono) u).2.frames =
+      depthLimit 200 ((u.stack.map (fun f => (secondPass (tableFrom [] q u.tmono) pm f).frame)).reverse)
+        u.stack.length := by
+    simp only [flushOne, hconv]; rfl
+  refine ⟨hfr, hlen, ?_⟩
+  rw [hfr]
+  have hpl : ∀ f ∈ (u.stack.map (fun f => (secondPass (tableFrom [] q u.tmono) pm f).frame)).reverse,
+      isElided f = false ∧ isTLabel f = false := by
+    intro f hf
+    simp only [List.mem_reverse, List.mem_map] at hf
+    obtain ⟨x, _, rfl⟩ := hf
+    have := plain_not_special (secondPass_plain (tableFrom [] q u.tmono) pm x)
+    exact ⟨this.1, this.2.1⟩
+  have := C14_meets_spec_exact _ (fun f hf => (hpl f hf).1) (fun f hf => (hpl f hf).2)
+  rw [hlen] at this
+  exact this
+
+/-- **Over histories** (with `C02_history`): for every configuration with default options and every record
+history inside the hypotheses of `C02_history`, the recorded samples of `views (run cfg rs)` carry, as a multiset
+keyed by (pid, tid, time), the stacks `depthLimit 200 e.frames e.nrec` of the expected samples `e`; and for every
+expected sample whose declaratively attributed stack `e.frames` contains no JS label frame, the hint is exact
+(`e.frames.length = e.nrec`) and that output satisfies the judged statement `elisionOk e.frames`. (With JS label
+frames the known finding C14-js-label-depth applies: `C14_label_frames_exceed_501`, `C14_meets_spec_but_depth`.) -/
+theorem C14_history (cfg : Config) (rs : List Rec) (hr : cfg.reuse = false)
+    (hg : Life.grammarOk cfg.ref rs = true) (hcs : hasCsRec rs = false) (hsp : noSpecial rs = true)
+    (hord : queuedOrdered rs = true) (hpm : ∀ pid, (loadPerfMap cfg pid).isSome = true) :
+    List.Perm
+      ((views (run cfg rs)).flatMap (fun v => (v.samples.filter (fun o => !o.synth)).map
+        (fun o => (v.pidBase, v.tidBase, o.t, o.frames))))
+      ((expectedSamples cfg rs).map
+        (fun e => (e.pid, e.tid, e.t - cfg.ref, depthLimit 200 e.frames e.nrec))) ∧
+    ∀ e ∈ expectedSamples cfg rs, e.frames.any isLabel = false →
+      e.frames.length = e.nrec ∧ elisionOk e.frames (depthLimit 200 e.frames e.nrec) = true := by
+  refine ⟨history_views cfg rs hr hg hcs hsp hord hpm, ?_⟩
+  intro e he hnl
+  obtain ⟨infos, h1, h2, h3⟩ := expectedSamples_go_shape cfg rs [] [] [] [] e he
+  obtain ⟨a1, a2⟩ := expandJsFrom_frames [] infos h3
+  have hnl' : (expandJsFrom [] infos).any isLabel = false := by rw [h1] at hnl; exact hnl
+  have hlen : e.frames.length = e.nrec := by
+    rw [h2, h1]; exact a2 hnl'
+  refine ⟨hlen, ?_⟩
+  rw [← hlen]
+  refine C14_meets_spec_exact e.frames ?_ ?_
+  · intro f hf; rw [h1] at hf; exact (a1 f hf).1
+  · intro f hf; rw [h1] at hf; exact (a1 f hf).2
+
+/-- non-vacuity of `C14_history`: a history inside its hypotheses (a mapping, a fork, samples of parent and child)
+whose expected stacks carry no JS label frame -/
+example :
+    let rs : List Rec := [.comm 100 100 "app" false 1000, .mmap2 100 100 0x400000 0x2000 0 true "libfoo.so" 1100,
+      .fork 200 200 100 100 1200, .sample 200 200 1300 false 1 0x400100 [CTX_USER, 0x400100, 0x401000],
+      .sample 100 100 1400 false 1 0x400200 []]
+    Life.grammarOk 1000 rs = true ∧ hasCsRec rs = false ∧ noSpecial rs = true ∧ queuedOrdered rs = true ∧
+    (expectedSamples { ref := 1000 } rs).map (fun e => (e.frames.any isLabel, e.frames.length, e.nrec)) =
+      [(false, 2, 2), (false, 1, 1)] := by decide
